@@ -68,7 +68,8 @@ Inductive pc :=
 | PCGet (p : option Z)                 (*   get() / get_top_event_if_priority: self._queue.get() *)
 | PCPutBack (e : entry)                (*   self._queue.put(entry): other priority, goes back *)
 | PCAcq | PCPop | PCRepoint | PCRel (h : how)   (* with self._lock: pop; re-point; release *)
-| PFClear.                             (* force_quit after `_force_quit = True` *)
+| PFClear                              (* force_quit after `_force_quit = True` *)
+| PDead.                               (* the thread left through ExitMainLoop: the rest of its program never runs *)
 
 Record thread := { t_prog : list action; t_pc : pc }.
 
@@ -224,7 +225,7 @@ Definition start (t : nat) (a : action) (prog : list action) (h : shared) : opti
     | S _ => None
     end
   | AOpen s =>
-    if h_fq h then Some (mk prog P0, lbl t [13]%Z h)
+    if h_fq h then Some (mk prog P0, lbl t [13]%Z (h <| h_drop := h_drop h ++ [s_id s] |>))   (* `if self._force_quit: return` *)
     else let q := h_nq h in
          Some (mk prog (POAcq s), lbl t [15%Z; zn q] (h <| h_active := q |> <| h_nq := S q |>))
   | AClose => close_empty t None prog h
@@ -234,7 +235,7 @@ Definition start (t : nat) (a : action) (prog : list action) (h : shared) : opti
 (* a step at a program point inside an action *)
 Definition cont (t : nat) (p : pc) (prog : list action) (h : shared) : option (thread * shared) :=
   match p with
-  | P0 => None
+  | P0 | PDead => None
   | PE s e => enq t s e prog h
   | PRAdd q o => Some (mk prog (PRRel q), lbl t [14%Z; zn q; zn o] (h <| h_src := add_src (h_src h) q o |>))
   | PRRel q => Some (mk prog P0, lbl t [7%Z; zn q] (h <| h_qlock := aset (h_qlock h) q 0 |>))
@@ -281,7 +282,7 @@ Definition cont (t : nat) (p : pc) (prog : list action) (h : shared) : option (t
     let h' := lbl t [10]%Z (h <| h_mlock := 0 |>) in
     match hw with
     | HOk => Some (mk prog P0, h' <| h_run := negb (h_fq h) |>)   (* _run_loop = False; the level's _mainloop returns: if not _force_quit: _run_loop = True *)
-    | HExit => Some (mk [] P0, h')                                (* ExitMainLoop: the loop thread leaves run() *)
+    | HExit => Some (mk prog PDead, h')                             (* ExitMainLoop: the loop thread leaves run() *)
     | HExn => Some (mk prog P0, h')                               (* IndexError, swallowed by _process_signal *)
     end
   | PFClear => Some (mk prog P0, lbl t [22]%Z (h <| h_evq := [] |> <| h_run := false |>))
@@ -294,7 +295,7 @@ Definition tstep (t : nat) (th : thread) (h : shared) : option (thread * shared)
   end.
 
 Definition finished (th : thread) : bool :=
-  match t_pc th, t_prog th with P0, [] => true | _, _ => false end.
+  match t_pc th, t_prog th with P0, [] => true | PDead, _ => true | _, _ => false end.
 
 (* ------------------------------------------------------------------ schedules *)
 Definition step (t : nat) (st : cstate) : cstate :=
@@ -365,13 +366,18 @@ Definition pending_dead (st : cstate) : list nat :=
 (* ------------------------------------------------------------------ exhaustive exploration (used by the check) *)
 Definition enabled_tids (st : cstate) : list nat := filter (fun t => enabled t st) (seq 0 (length (c_thr st))).
 
-(* all maximal stutter-free schedules from [st] (depth <= fuel), at most [cap] of them, depth first *)
-Fixpoint explore (fuel : nat) (st : cstate) (pre : list nat) (cap : nat) (acc : list (list nat)) : list (list nat) :=
-  match fuel with
-  | 0 => rev pre :: acc
-  | S f =>
-    match enabled_tids st with
-    | [] => rev pre :: acc
-    | en => fold_left (fun a t => if length a <? cap then explore f (step t st) (t :: pre) cap a else a) en acc
+(* all maximal stutter-free schedules from [st] (depth <= fuel), at most [cap] of them, depth first;
+   the accumulator carries (how many more are allowed, schedules found so far) *)
+Fixpoint explore (fuel : nat) (st : cstate) (pre : list nat) (acc : nat * list (list nat)) : nat * list (list nat) :=
+  match fst acc with
+  | 0 => acc
+  | S c =>
+    match fuel with
+    | 0 => (c, rev pre :: snd acc)
+    | S f =>
+      match enabled_tids st with
+      | [] => (c, rev pre :: snd acc)
+      | en => fold_left (fun a t => explore f (step t st) (t :: pre) a) en acc
+      end
     end
   end.
